@@ -539,6 +539,11 @@ func (sc *SpecScope) call(x *ast.CallExpr) Val {
 			return vBool(sx(">=", v.S, base))
 		}
 		return sc.fail("fresh of non-reference")
+	case "reMatch":
+		c.declare("reMatch", []string{"Int", "Str"}, "Bool")
+		re := sc.eval(arg(0))
+		str := sc.eval(arg(1))
+		return vBool(sx("reMatch", re.S, str.S))
 	case "refof", "offof":
 		v := sc.eval(arg(0))
 		if v.K != KSlice {
